@@ -222,7 +222,7 @@ DIRECTED = [
 
 
 def gen(rng, tier):
-    n = {"quick": 350, "thorough": 6000, "search": 3000}[tier]
+    n = {"quick": 250, "thorough": 6000, "search": 3000}[tier]
     for i, ops in enumerate(DIRECTED):
         yield Case("md", ops, "directed-%d" % i)
     for i in range(n):
